@@ -379,3 +379,40 @@ def run_kernel_corr(rng, nprog, profile, name, malformed_every=7, per_file=40):
                     'every step output compared bit for bit with the FNum model; a program is non-trivial if it has more than 3 steps; '
                     'distinct by hash of the operation list' % profile,
             'samples': [{'program': s.pyops[:12]} for s in sessions[:2]]}
+
+# ------------------------------------------------------------------ replay / diagnosis
+def run_pyops(pyops, ctx_id):
+    """re-execute a recorded program (list of python-side op descriptions) on the implementation"""
+    s = KSession(ctx_id)
+    for op in pyops:
+        op = list(op)
+        k = op[0]
+        if k == 'ureal': s.ureal(op[1], op[2], op[3], label=op[4], indep=op[5])
+        elif k == 'constant': s.constant(op[1], label=op[2])
+        elif k == 'multiple': s.multiple(op[1], op[2], op[3])
+        elif k == 'un': s.un(op[1], op[2])
+        elif k == 'bin': s.bin(op[1], tuple(op[2]), tuple(op[3]))
+        elif k == 'result': s.result(op[1], label=op[2])
+        elif k == 'set_corr': s.set_corr(op[1], op[2], op[3])
+        elif k == 'read': s.read(op[1], op[2])
+        elif k == 'sens': s.sens(op[1], op[2])
+        elif k == 'ucomp': s.ucomp(op[1], op[2])
+        elif k == 'get_cov': s.get_cov(op[1], op[2])
+        elif k == 'get_corr': s.get_corr(op[1], op[2])
+        else: raise ValueError(k)
+    s.heap_ok = s.check_heap()
+    s.close()
+    return s
+
+def diagnose(pyops, ctx_id, step):
+    """model output vs implementation output at one step (text)"""
+    s = run_pyops(pyops, ctx_id)
+    d = scratch('diag')
+    path = os.path.join(d, 'diag.v')
+    with open(path, 'w') as f:
+        f.write(HEADER)
+        f.write('Definition c0 : kcase := %s.\n' % s.case_term())
+        f.write('Eval vm_compute in (run_case c0).\n')
+        f.write('Eval vm_compute in (model_out c0 %d).\n' % step)
+    res = run_coqc_many([path])
+    return s.outs[step] if step < len(s.outs) else None, res[path][1]
